@@ -5,6 +5,10 @@ import VlsModel.Gen.FnPersistModel
 import VlsModel.Gen.FnKvvKeys
 import VlsModel.Gen.FnKvvPass
 import VlsModel.Gen.FnNodePrune
+import VlsModel.Gen.FnNodeForget
+import VlsModel.Gen.FnNodeNewChannel
+import VlsModel.Gen.FnTrackerEntry
+import VlsModel.Gen.FnTrackerEntryRestore
 import VlsModel.Model.Backup
 import VlsModel.Lemmas.FnGen
 /-
@@ -700,4 +704,176 @@ example :
   intro node; rfl
 
 end Prune
+/-! ### `Node::forget_channel` translated from the source (`Gen.FnNodeForget`, `translate/fn_targets/NodeForget.b5.json`) -/
+section Forget
+open VlsModel.Gen.FnNodeForget
+
+/-- **C11_fn_forget_channel**: whenever `Node::forget_channel` (as it is in the source now) returns `Ok`, then for the slot the
+    channel map holds under the given id: a raised high-water mark was written with the node state that carries it
+    (acknowledged, *before* anything else is written); a stub's store entry was deleted under the given id (acknowledged);
+    a ready channel's monitor accepted the forget and the tracker entry (which carries the forget flag) was written
+    (acknowledged).  An id the map does not hold writes nothing.  For all persisters, trackers and node states. -/
+theorem C11_fn_forget_channel {ChannelId PublicKey ChainTracker Persist : Type} [DecidableEq ChannelId]
+    (chs : Node ChannelId PublicKey ChainTracker Persist → List (ChannelId × ChannelSlot))
+    (fg : Channel → VlsModel.Rs.M Unit) (st : Node ChannelId PublicKey ChainTracker Persist → NodeState)
+    (oid : ChannelId → Nat) (updn : Persist → PublicKey → NodeState → Option Unit)
+    (del : Persist → PublicKey → ChannelId → Option Unit)
+    (updt : Persist → PublicKey → ChainTracker → Option Unit)
+    (self : Node ChannelId PublicKey ChainTracker Persist) (id : ChannelId)
+    (h : Node.forget_channel chs fg st oid updn del updt self id = .ok ()) :
+    ∀ slot, VlsModel.Rs.omapGet (chs self) id = some slot →
+      (oid id > (st self).dbid_high_water_mark →
+         updn self.persister self.node_id { st self with dbid_high_water_mark := oid id } = some ()) ∧
+      (∀ s, slot = .Stub s → del self.persister self.node_id id = some ()) ∧
+      (∀ ch, slot = .Ready ch → fg ch = .ok () ∧ updt self.persister self.node_id self.tracker = some ()) := by
+  intro slot hg
+  unfold Node.forget_channel at h
+  simp only [hg, Node.get_id, Node.get_tracker, bind, Except.bind, pure, Except.pure] at h
+  cases slot with
+  | Stub s =>
+    by_cases hc : oid id > (st self).dbid_high_water_mark
+    · cases hu : updn self.persister self.node_id { st self with dbid_high_water_mark := oid id } <;>
+      cases hd : del self.persister self.node_id id <;>
+      (try simp_all [VlsModel.Rs.unwrap, VlsModel.Rs.panic, pure, Except.pure]) <;> (try (intro hh; omega))
+    · cases hd : del self.persister self.node_id id <;>
+      (try simp_all [VlsModel.Rs.unwrap, VlsModel.Rs.panic, pure, Except.pure]) <;> (try (intro hh; omega))
+  | Ready ch =>
+    cases hf : fg ch with
+    | error e => simp_all
+    | ok u =>
+      by_cases hc : oid id > (st self).dbid_high_water_mark
+      · cases hu : updn self.persister self.node_id { st self with dbid_high_water_mark := oid id } <;>
+        cases ht : updt self.persister self.node_id self.tracker <;>
+        (try simp_all [VlsModel.Rs.unwrap, VlsModel.Rs.panic, pure, Except.pure]) <;> (try (intro hh; omega))
+      · cases ht : updt self.persister self.node_id self.tracker <;>
+        (try simp_all [VlsModel.Rs.unwrap, VlsModel.Rs.panic, pure, Except.pure]) <;> (try (intro hh; omega))
+
+/-- non-vacuity: a stub under id 5 with the mark at 3 (the mark is raised and written, the stub deleted), a ready channel
+    under id 2 (tracker written), and a node-state write that fails (the request aborts, nothing is acknowledged). -/
+example :
+    let node : Node Nat Nat Nat Nat := { channels := [(5, .Stub ⟨⟩), (2, .Ready ⟨⟩)], persister := 0, tracker := 4, state := ⟨3⟩, node_id := 9 }
+    Node.forget_channel (fun n => n.channels) (fun _ => .ok ()) (fun n => n.state) id (fun _ _ _ => some ())
+        (fun _ _ _ => some ()) (fun _ _ _ => some ()) node 5 = .ok () ∧
+    Node.forget_channel (fun n => n.channels) (fun _ => .ok ()) (fun n => n.state) id (fun _ _ _ => some ())
+        (fun _ _ _ => some ()) (fun _ _ _ => some ()) node 2 = .ok () ∧
+    Node.forget_channel (fun n => n.channels) (fun _ => .ok ()) (fun n => n.state) id (fun _ _ _ => none)
+        (fun _ _ _ => some ()) (fun _ _ _ => some ()) node 5 = .error .panic := by
+  intro node; exact ⟨rfl, rfl, rfl⟩
+
+
+/-- **C11_fn_node_get_tracker**: the tracker `forget_channel` persists is the node's own tracker (`get_tracker()` is the field). -/
+theorem C11_fn_node_get_tracker {ChannelId PublicKey ChainTracker Persist : Type}
+    (self : Node ChannelId PublicKey ChainTracker Persist) : self.get_tracker = self.tracker := rfl
+
+end Forget
+/-! ### `From<&ChainTracker<ChainMonitor>> for ChainTrackerEntry` translated (`Gen.FnTrackerEntry`, `fn_targets/TrackerEntry.b5.json`) -/
+section TrackerEntry
+
+/-- **C11_fn_tracker_entry_from**: the entry `update_tracker` serialises holds the tracker's own tip, every remembered header in
+    order (each through the one consensus encoding), its height (`height()`) and its network; and under the format contract
+    (decoding after encoding is the identity) the tip and the headers a restart decodes are the running tracker's.  The
+    listeners' conversion (an iteration over the listener map) stays with the field census `C11_gen_census_tracker`. -/
+theorem C11_fn_tracker_entry_from {Headers Network OutPoint ChainMonitorState : Type}
+    (ser : Headers → List Nat) (ls : Gen.FnTrackerEntry.ChainTracker Headers Network → List (OutPoint × (ChainMonitorState × Gen.FnTrackerEntry.ListenSlot)))
+    (height : Gen.FnTrackerEntry.ChainTracker Headers Network → Nat) (t : Gen.FnTrackerEntry.ChainTracker Headers Network) :
+    let e : Gen.FnTrackerEntry.ChainTrackerEntry Network OutPoint ChainMonitorState := Gen.FnTrackerEntry.ChainTrackerEntry.«from» ser ls height t
+    e.tip = ser t.tip ∧ e.headers = t.headers.map ser ∧ e.height = height t ∧ e.network = t.network ∧ e.listeners = ls t ∧
+    (∀ de : List Nat → Headers, (∀ h, de (ser h) = h) → de e.tip = t.tip ∧ e.headers.map de = t.headers) := by
+  refine ⟨rfl, rfl, rfl, rfl, rfl, ?_⟩
+  intro de hde
+  refine ⟨hde _, ?_⟩
+  show (t.headers.map ser).map de = t.headers
+  rw [List.map_map]
+  conv => rhs; rw [← List.map_id t.headers]
+  exact List.map_congr_left (fun h _ => hde h)
+
+/-- non-vacuity: an encoding with a decoder (`[n]` / head), two remembered headers -/
+example :
+    let t : Gen.FnTrackerEntry.ChainTracker Nat Nat := { headers := [4, 5], tip := 6, network := 1 }
+    let e : Gen.FnTrackerEntry.ChainTrackerEntry Nat Nat Nat := Gen.FnTrackerEntry.ChainTrackerEntry.«from» (fun n => [n]) (fun _ => []) (fun _ => 7) t
+    e.tip = [6] ∧ e.headers = [[4], [5]] ∧ e.height = 7 ∧ e.headers.map (fun l => l.headD 0) = t.headers := by
+  intro t e; exact ⟨rfl, rfl, rfl, rfl⟩
+
+end TrackerEntry
+/-! ### `ChainTrackerEntry::into_tracker` translated (`Gen.FnTrackerEntryRestore`, `fn_targets/TrackerEntryRestore.b5.json`) -/
+section TrackerEntryRestore
+open VlsModel.Gen.FnTrackerEntryRestore
+
+/-- **C11_fn_tracker_entry_into**: what a restart makes of a stored tracker entry: the tip and every header decoded (a failure
+    of either aborts the restart), `ChainTracker::restore` (tied: `C11_fn_tracker_restore`) called with exactly these, the stored
+    height and network, no listeners yet and no oracle keys, and every stored listener handed back in order (they are
+    re-attached by `restore_listener`, `C11_fn_tracker_restore_listener`). -/
+theorem C11_fn_tracker_entry_into {OutPoint ChainMonitorState ListenSlot Network PublicKey ValidatorFactory ChainTracker
+    ChainTrackerListenerEntry Headers ChainMonitor : Type}
+    (deTip deHdr : List Nat → VlsModel.Rs.M Headers) (mk : OutPoint → (ChainMonitorState × ListenSlot) → ChainTrackerListenerEntry)
+    (restore : List Headers → Headers → Nat → Network → List (OutPoint × (ChainMonitor × ListenSlot)) → PublicKey →
+      ValidatorFactory → List PublicKey → ChainTracker)
+    (e : ChainTrackerEntry OutPoint ChainMonitorState ListenSlot Network) (nid : PublicKey) (vf : ValidatorFactory)
+    (tip : Headers) (hs : List Headers) (htip : deTip e.tip = .ok tip) (hhs : List.mapM deHdr e.headers = .ok hs) :
+    ChainTrackerEntry.into_tracker deTip deHdr mk restore e nid vf =
+      .ok (restore hs tip e.height e.network [] nid vf [], e.listeners.map (fun x => mk x.1 x.2)) := by
+  unfold ChainTrackerEntry.into_tracker
+  have hm : List.mapM (fun h => do let t_4 ← deHdr h; pure t_4) e.headers = List.mapM deHdr e.headers := by
+    congr 1
+  simp only [htip, hm, hhs, bind, Except.bind, pure, Except.pure]
+
+/-- … and a tip or a header that does not decode aborts the restart (nothing is restored from a damaged entry). -/
+theorem C11_fn_tracker_entry_into_fail {OutPoint ChainMonitorState ListenSlot Network PublicKey ValidatorFactory ChainTracker
+    ChainTrackerListenerEntry Headers ChainMonitor : Type}
+    (deTip deHdr : List Nat → VlsModel.Rs.M Headers) (mk : OutPoint → (ChainMonitorState × ListenSlot) → ChainTrackerListenerEntry)
+    (restore : List Headers → Headers → Nat → Network → List (OutPoint × (ChainMonitor × ListenSlot)) → PublicKey →
+      ValidatorFactory → List PublicKey → ChainTracker)
+    (e : ChainTrackerEntry OutPoint ChainMonitorState ListenSlot Network) (nid : PublicKey) (vf : ValidatorFactory)
+    (f : VlsModel.Rs.Fail) (htip : deTip e.tip = .error f) :
+    ChainTrackerEntry.into_tracker deTip deHdr mk restore e nid vf = .error f := by
+  unfold ChainTrackerEntry.into_tracker
+  simp only [htip, bind, Except.bind]
+
+/-- non-vacuity -/
+example :
+    ChainTrackerEntry.into_tracker (Headers := Nat) (ChainMonitor := Nat) (fun l => .ok l.length) (fun l => .ok l.length)
+      (fun (o : Nat) (x : Nat × Nat) => (o, x)) (fun hs tip h n _ _ _ _ => (hs, tip, h, n))
+      ({ headers := [[1], [1, 2]], tip := [1, 2, 3], height := 9, network := 1, listeners := [(5, (6, 7))] } : ChainTrackerEntry Nat Nat Nat Nat)
+      (0 : Nat) (0 : Nat) = .ok (([1, 2], 3, 9, 1), [(5, (6, 7))]) := rfl
+
+end TrackerEntryRestore
+section NewChannel
+open VlsModel.Gen.FnNodeNewChannel
+variable {ChannelId ChannelSlot PublicKey Persist Policy InMemorySigner WeakNode Secp256k1 : Type} [DecidableEq ChannelId]
+  (bh : Node ChannelId ChannelSlot PublicKey Persist → Nat)
+  (chs : Node ChannelId ChannelSlot PublicKey Persist → List (ChannelId × ChannelSlot))
+  (pol : Policy) (maxc : Policy → Nat)
+  (keys : ChannelId → Nat → Node ChannelId ChannelSlot PublicKey Persist → InMemorySigner)
+  (dg : Node ChannelId ChannelSlot PublicKey Persist → WeakNode) (secp : Secp256k1)
+  (mkStub : ChannelStub WeakNode Secp256k1 InMemorySigner ChannelId → ChannelSlot)
+  (nc : Persist → PublicKey → ChannelStub WeakNode Secp256k1 InMemorySigner ChannelId → Option Unit)
+  (self arc : Node ChannelId ChannelSlot PublicKey Persist) (cid : ChannelId)
+
+/-- **C11_fn_find_or_create_channel_persist**: whenever `Node::find_or_create_channel` (`new_channel`) returns `Ok` for an id the
+    channel map did not hold, the stub it returns — initial id = the requested id, block height = the tracker's — is the stub
+    `persister.new_channel(node id, ·)` was handed and acknowledged: the acknowledged stub is in the store. -/
+theorem C11_fn_find_or_create_channel_persist (mono : Option Nat)
+    (r : ChannelId × Option ChannelSlot)
+    (h : Node.find_or_create_channel bh chs pol maxc keys dg secp mkStub nc self cid arc mono = .ok r)
+    (hnew : VlsModel.Rs.omapGet (chs self) cid = none) :
+    ∃ stub : ChannelStub WeakNode Secp256k1 InMemorySigner ChannelId,
+      r = (cid, some (mkStub stub)) ∧ stub.id0 = cid ∧ stub.blockheight = bh arc ∧
+      nc self.persister self.node_id stub = some () := by
+  refine ⟨{ node := dg arc, secp_ctx := secp, keys := keys cid 0 self, id0 := cid, blockheight := bh arc }, ?_, rfl, rfl, ?_⟩ <;>
+  · unfold Node.find_or_create_channel at h
+    cases hn : nc self.persister self.node_id { node := dg arc, secp_ctx := secp, keys := keys cid 0 self, id0 := cid, blockheight := bh arc } <;>
+    cases mono <;>
+    simp only [hnew, hn, Node.get_state, Node.get_id, VlsModel.Rs.unwrap, VlsModel.Rs.fail, VlsModel.Rs.panic, bind, Except.bind, pure, Except.pure] at h <;>
+    (repeat (split at h <;> try cases h)) <;> simp_all
+
+/-- non-vacuity: mark at 3, dbid 4, room in the map: the stub (id0 = 4, block height 7) is written and returned -/
+example :
+    let node : Node Nat (Option (ChannelStub Nat Nat Nat Nat)) Nat Nat := { channels := [], persister := 0, state := ⟨3⟩, node_id := 9 }
+    Node.find_or_create_channel (fun _ => 7) (fun n => n.channels) (0 : Nat) (fun _ => 2) (fun _ _ _ => 0) (fun _ => 0) (0 : Nat)
+      some (fun _ _ _ => some ()) node 4 node (some 4)
+      = .ok (4, some (some { node := 0, secp_ctx := 0, keys := 0, id0 := 4, blockheight := 7 })) := by
+  intro node; rfl
+
+end NewChannel
+
 end VlsModel.Props.C11Fn
